@@ -26,7 +26,9 @@ FuncsCore == {
   <<"skewx", <<>>, <<8>>>>,
   <<"skewy", <<>>, <<4>>>>,
   <<"skew", <<>>, <<8, 4>>>>,
-  <<"skew", <<>>, <<8>>>> }
+  <<"skew", <<>>, <<8>>>>,
+  \* functions whose value is the identity
+  <<"rotate", <<>>, <<7>>>>, <<"translate", <<I(0), I(0)>>, <<>>>> }
 FuncsMore == {
   <<"matrix", <<I(2), I(0), I(0), I(2), I(0), I(0)>>, <<>>>>,
   <<"translate", <<Q(1, 2), Q(-7, 2)>>, <<>>>>,
@@ -35,7 +37,6 @@ FuncsMore == {
   <<"rotate", <<>>, <<2>>>>,
   <<"rotate", <<>>, <<3>>>>,
   <<"rotate", <<>>, <<6>>>>,
-  <<"rotate", <<>>, <<7>>>>,
   <<"rotate", <<>>, <<9>>>>,
   <<"rotate", <<I(0), I(7)>>, <<2>>>>,
   <<"skewx", <<>>, <<5>>>>,
